@@ -153,7 +153,8 @@ func init() {
 
 func init() {
 	reg(&PropSpec{
-		ID: "C14",
+		ID:   "C14",
+		Also: []string{"C02"}, // in these batches a fidelity failure (exactly-once dispatch, equal arguments / results) is this property's failure
 		Batches: []Batch{
 			s4b("tunnel", "", 15000, 1000000),
 			s4b("tunnel", "damage=1,strings=benign", 10000, 500000),
@@ -177,7 +178,8 @@ func init() {
 
 func init() {
 	reg(&PropSpec{
-		ID: "C05",
+		ID:   "C05",
+		Also: []string{"C02"}, // in these batches a fidelity failure (exactly-once dispatch, equal arguments / results) is this property's failure
 		Batches: []Batch{
 			s4b("rpc", "faults=strip,mounts=bare+mux+prefix", 15000, 800000),
 			s4b("rpc", "filters=1,mounts=bare+mux+prefix", 12000, 600000),
@@ -193,7 +195,8 @@ func init() {
 	onlyBatch := "res=fam.prims+fam.strs+fam.byname+fam.bycolor+fam.cks+fam.prims.subs+fam.annotated"
 	_ = onlyBatch
 	reg(&PropSpec{
-		ID: "C16",
+		ID:   "C16",
+		Also: []string{"C02"}, // in these batches a fidelity failure (exactly-once dispatch, equal arguments / results) is this property's failure
 		Batches: []Batch{
 			s4b("rpc", "keys=adv,byz=1,methods=batch", 25000, 1500000),
 			s4b("rpc", "keys=adv,byz=1,methods=batch,res=fam.cks", 10000, 600000),
@@ -205,7 +208,8 @@ func init() {
 
 func init() {
 	reg(&PropSpec{
-		ID: "C07",
+		ID:   "C07",
+		Also: []string{"C02"}, // in these batches a fidelity failure (exactly-once dispatch, equal arguments / results) is this property's failure
 		Batches: []Batch{
 			s4b("rpc", "res=fam.annotated,methods=excl", 15000, 1000000),
 			s4b("rpc", "res=fam.annotated,methods=excl,byzclient=1", 15000, 1000000),
